@@ -160,8 +160,8 @@ package revocation
 
 //@ func (*Witness).Verify
 //@   property C09 C10 C06
-//@   requires w != nil && pk != nil && pk.N != nil && val(pk.N) > 1 && w.SignedAccumulator != nil && w.U != nil && w.E != nil && val(w.E) >= 0
-//@   ensures ok: err == nil ==> w.SignedAccumulator.Accumulator != nil && w.SignedAccumulator.Accumulator.Nu != nil && pow(val(w.U), val(w.E), val(pk.N)) == val(w.SignedAccumulator.Accumulator.Nu)
+//@   requires w != nil && pk != nil && pk.N != nil && val(pk.N) > 1 && (w.E != nil ==> val(w.E) >= 0)
+//@   ensures ok: err == nil ==> w.SignedAccumulator != nil && w.U != nil && w.E != nil && w.SignedAccumulator.Accumulator != nil && w.SignedAccumulator.Accumulator.Nu != nil && pow(val(w.U), val(w.E), val(pk.N)) == val(w.SignedAccumulator.Accumulator.Nu)
 //@   ensures auth: err == nil && old(w.SignedAccumulator.Accumulator) == nil ==> pk.Counter == w.SignedAccumulator.PKCounter && signedok(ref(pk.ECDSA), bytes(w.SignedAccumulator.Data))
 //@   modifies w.SignedAccumulator.Accumulator
 //@   mustfail canary: err != nil
@@ -175,6 +175,7 @@ package revocation
 //@   ensures forward: err == nil ==> w.SignedAccumulator.Accumulator != nil && w.SignedAccumulator.Accumulator.Index >= old(w.SignedAccumulator.Accumulator.Index)
 //@   ensures checked: err == nil && w.U != old(w.U) ==> w.SignedAccumulator.Accumulator.Nu != nil && pow(val(w.U), val(w.E), val(pk.N)) == val(w.SignedAccumulator.Accumulator.Nu)
 //@   ensures kept: w.E == old(w.E) && val(w.E) == old(val(w.E))
+//@   ensures tracked: err == nil && w.SignedAccumulator.Accumulator.Index != old(w.SignedAccumulator.Accumulator.Index) ==> w.U != old(w.U)
 //@   ensures verified: err == nil && (w.U != old(w.U) || w.SignedAccumulator != old(w.SignedAccumulator)) ==> update.SignedAccumulator.Accumulator != nil && chained(update.Events, update.SignedAccumulator.Accumulator)
 //@   ensures notrevoked: err == nil && w.U != old(w.U) && len(update.Events) > 0 ==> gcd(val(w.E), old(eprod(update.Events, w.SignedAccumulator.Accumulator.Index + 1 - update.Events[0].Index, len(update.Events)))) == 1
 //@   modifies w.U, w.SignedAccumulator, heap("Witness.Updated"), fields(w.SignedAccumulator), update.SignedAccumulator.Accumulator, update.product, update.productFrom
